@@ -155,6 +155,18 @@ def probes(uid, kek, kind):
         add('modify_20|%s|current' % n, (lambda at=at, v=v: W.p_modify_attribute_20(uid, at, v, v)), '20')
         add('set_20|%s' % n, (lambda at=at, v=v: W.p_set_attribute(uid, at, v)), '20')
         add('delete_20|%s|current' % n, (lambda at=at, v=v: W.p_delete_attribute_20(uid, at, v)), '20')
+    # the current attribute naming ANOTHER attribute than the new one (legal for the codec)
+    MIX = [('Name', 'nm'), ('Object Group', 'g'), ('Sensitive', True),
+           ('Application Specific Information', ATTR_VALUES['Application Specific Information']),
+           ('Cryptographic Algorithm', ALG.AES), ('State', E.State.ACTIVE)]
+    for (n1, v1) in MIX:
+        for (n2, v2) in MIX:
+            if n1 != n2:
+                add('modify_20|%s|current-is-%s' % (n2, n1), (lambda n1=n1, v1=v1, n2=n2, v2=v2: (
+                    W.OP.MODIFY_ATTRIBUTE, W.payloads.ModifyAttributeRequestPayload(
+                        unique_identifier=uid,
+                        current_attribute=W.cobjects.CurrentAttribute(attribute=W.attr_value(AT(n1), v1)),
+                        new_attribute=W.cobjects.NewAttribute(attribute=W.attr_value(AT(n2), v2))))), '20')
     for n in ALL_ATTR_NAMES:
         for idx in (None, 0, 1, 5, -1):
             add('delete_1x|%s|idx=%s' % (n, idx), (lambda n=n, idx=idx: W.p_delete_attribute_1x(uid, n, idx)), '1x')
